@@ -115,6 +115,57 @@ func markersInsideScriptStyle(in string) (inside []string, hasEl bool) {
 	return
 }
 
+// insidePerTokenizer: in the token stream of the context-free tokenizer, is the marker part of the text that
+// follows a script/style start (or self-closing) tag and precedes its end tag?
+func insidePerTokenizer(in, marker string) bool {
+	open := ""
+	for _, t := range obs.Retok(in) {
+		switch t.Type {
+		case html.StartTagToken, html.SelfClosingTagToken:
+			if t.Name == "script" || t.Name == "style" {
+				open = t.Name
+			} else {
+				open = ""
+			}
+		case html.EndTagToken:
+			if t.Name == open {
+				open = ""
+			}
+		case html.TextToken:
+			if open != "" && strings.Contains(t.Data, marker) {
+				return true
+			}
+		}
+	}
+	return false
+}
+
+// markersInForeignScriptStyle: markers inside a script/style element that itself has an svg or math ancestor.
+func markersInForeignScriptStyle(in string) map[string]bool {
+	out := map[string]bool{}
+	for _, ctx := range []string{"body", "div"} {
+		obs.Walk(obs.DOM(in, ctx), func(n *html.Node) {
+			if n.Type != html.TextNode || !obs.HasAncestor(n, "script", "style") || !obs.HasAncestor(n, "svg", "math") {
+				return
+			}
+			s := n.Data
+			for {
+				i := strings.Index(s, "qz")
+				if i < 0 {
+					break
+				}
+				j := strings.Index(s[i:], "zq")
+				if j < 0 {
+					break
+				}
+				out[s[i:i+j+2]] = true
+				s = s[i+j+2:]
+			}
+		})
+	}
+	return out
+}
+
 func judgeC05(v *spec.View, in, out string) (sig, what string, nontrivial bool) {
 	for _, t := range obs.Retok(out) {
 		switch t.Type {
@@ -138,18 +189,20 @@ func judgeC05(v *spec.View, in, out string) (sig, what string, nontrivial bool) 
 		}
 	}
 	inside, hasEl := markersInsideScriptStyle(in)
+	foreignMarkers := markersInForeignScriptStyle(in)
 	for _, m := range inside {
 		if strings.Contains(out, m) {
-			// Classify: did the sanitiser's own (context-free) tokenizer see the script/style tag at all, or was the
-			// tag swallowed as text of an RCDATA / raw-text element that the tree builder, inside svg/math, does
-			// not treat as such?
+			// Classify by the two views of the input. The sanitiser works on x/net's context-free tokenizer: if,
+			// in that view too, the marker lies in the raw text of a script/style tag the sanitiser saw, the plain
+			// signature stands. If only the tree builder places it inside script/style and the element sits in
+			// foreign content (svg/math, where the tree builder switches raw-text handling off and the tokenizer
+			// does not), it is the known tokenizer differential.
 			sig := "body-text"
-			for _, t := range obs.Retok(in) {
-				if t.Type == html.TextToken && strings.Contains(t.Data, m) {
-					l := strings.ToLower(t.Data)
-					if i := strings.Index(l, m); i >= 0 && (strings.Contains(l[:i], "<style") || strings.Contains(l[:i], "<script")) {
-						sig = "body-text|tag-swallowed-as-rcdata-text-in-foreign-content"
-					}
+			if !insidePerTokenizer(in, m) {
+				if foreignMarkers[m] {
+					sig = "body-text|foreign-content-tokenizer-differential"
+				} else {
+					sig = "body-text|tree-builder-only"
 				}
 			}
 			return sig, "text " + m + " from inside a script/style element of the input appears in the output", true
